@@ -20,6 +20,10 @@ class Infeasible(Exception):
     """Current path condition became unsatisfiable (after an assume)."""
 
 
+class PathEnd(Exception):
+    """The path ends here on purpose (e.g. the inductive step of a loop under contract is complete)."""
+
+
 class SymRaise(Exception):
     """The executed code raised an exception (abrupt outcome)."""
 
@@ -154,6 +158,8 @@ def explore(fn, unit_name, opts=None, max_paths=400):
             out = ('return', val)
         except SymRaise as e:
             out = ('raise', e.cls, e.msg, e.where)
+        except PathEnd:
+            out = ('pathend',)
         except Infeasible:
             out = ('infeasible',)
         except Unsupported as e:
